@@ -240,7 +240,7 @@ def _hyp_campaign(mod, sub: Hyp, tier, seed, shard, nshards, part: Part, known_e
 
     from collections import deque
 
-    history = deque(maxlen=40)  # last cases judged in this process (for history-dependent failures)
+    history = deque(maxlen=1500)  # last cases judged in this process (for history-dependent failures)
 
     for round_no in range(sub.max_rounds):
         state = {"after_fail": 0, "failing": set(), "capped": False, "first": None}
@@ -304,7 +304,8 @@ def _hyp_campaign(mod, sub: Hyp, tier, seed, shard, nshards, part: Part, known_e
                 test()
             return
         except Violation as v:
-            part.violations.append({"sub": sub.name, "bucket": v.bucket, "msg": v.msg, "case": v.case, "history": []})
+            hist = state["first"]["history"] if state["first"] else []
+            part.violations.append({"sub": sub.name, "bucket": v.bucket, "msg": v.msg, "case": v.case, "history": hist})
             ignored.add(v.bucket)
             n = max(1, n // 2)
         except hypothesis.errors.Flaky as e:
